@@ -20,7 +20,7 @@ def run(R):
     for i, (variant, env) in enumerate(CFGS):
         exe = R.cc("aead_driver", ["aead_driver.c"], variant)
         out = R.path("aead", "a%d.ndjson" % i)
-        R.run([exe, str(R.seed), "full" if (thorough and i == 0) else "quick", out], env=env, ok_codes=(0, 70), timeout=3000)
+        R.run([exe, str(R.seed), "full" if thorough else "quick", out], env=env, ok_codes=(0, 70), timeout=3000)
         for ln in open(out):
             if ln.startswith('{"e":"crash"'):
                 R.violation("driver crashed in configuration %s %s" % (variant, env), {"variant": variant, "env": env}, name="crash")
